@@ -149,9 +149,12 @@ def MULTICAST_LEVEL_MAX : Nat := 4
 /-- `multicast_level = lvl` : the new `_net_lvl` -/
 def setMulticastLevel (lvl : Int) : Nat := min MULTICAST_LEVEL_MAX (max lvl 0).toNat
 
-/-- the address `multicast_level = lvl` re-opens pipe 0 with -/
-def multicastLevelAddr (cfg : AddrCfg) (lvl : Int) : PyM Bytes :=
-  pipeAddress cfg (lvl2addr (setMulticastLevel lvl)) 0
+/-- the address `multicast_level = lvl` re-opens pipe 0 with on a node whose `_addr` is `addr`:
+    `_pipe_address(_lvl_2_addr(lvl) if self.allow_multicast else self._addr, 0)` — the level's
+    shared address when multicasting is allowed, otherwise the node's own pipe-0 address (the one
+    `_begin` opened; before fix 6a18625 the level address was used unconditionally) -/
+def multicastLevelAddr (cfg : AddrCfg) (addr : Nat) (lvl : Int) : PyM Bytes :=
+  pipeAddress cfg (if cfg.allowMulticast then lvl2addr (setMulticastLevel lvl) else addr) 0
 
 /-- `multicast(…, level)`: `level = self._net_lvl if level is None else min(3, max(level, 0))` -/
 def multicastLevel (netLvl : Nat) (level : Option Int) : Nat :=
